@@ -30,15 +30,16 @@ Theorem C16_live_key_copied : forall c db k, sk_pttl k <> -2 -> key_filter_confi
             rw_db w = (if r_tdb c =? -1 then db else r_tdb c).
 Proof. exact live_key_copied. Qed.
 
-(* a big key expanded element by element on a free target key ends as the source value with
-   the remaining ttl (C02's element route) *)
-Theorem C16_big_key_faithful : forall pf key e v ttl, whole pf e v ->
-  big_apply pf key (e_value e) ttl None = (Some {| k_val := TLog (norm v); k_ttl := ttl |}, Done).
+(* a big key expanded element by element - on a free target key, or under key_exists = rewrite
+   over any existing value (DEL first; F18, repaired) - ends as the source value with the
+   remaining ttl (C02's element route) *)
+Theorem C16_big_key_faithful : forall pf key e v ttl del s, whole pf e v -> (s = None \/ del = true) ->
+  big_apply pf key (e_value e) ttl del s = (Some {| k_val := TLog (norm v); k_ttl := ttl |}, Done).
 Proof. exact big_key_faithful. Qed.
 
-(* finding F18: over a busy target key the expansion merges, whatever key_exists says *)
+(* finding: over a busy target key under key_exists = none the expansion merges instead of failing *)
 Theorem C16_big_key_merge_refuted :
-  fst (big_apply nofloat [x6b] (Model.Digest.create_value_dump x01 [x01; x01; x61]) 0 (Some {| k_val := TLog (LList [[x6f]]); k_ttl := 0 |}))
+  fst (big_apply nofloat [x6b] (Model.Digest.create_value_dump x01 [x01; x01; x61]) 0 false (Some {| k_val := TLog (LList [[x6f]]); k_ttl := 0 |}))
     = Some {| k_val := TLog (LList [[x6f]; [x61]]); k_ttl := 0 |}.
 Proof. exact big_key_merge_refuted. Qed.
 
@@ -48,7 +49,7 @@ Example C16_nonvacuous :
   let k key d t := {| sk_key := key; sk_dump := d; sk_pttl := t |} in
   rump c [{| sd_db := 2; sd_pages := [[k [x61] (Some [x01]) (-1)]; []; [k [x62] (Some [x02]) 5; k [x63] None (-2); k [x64] (Some [x01; x02; x03]) 70]] |}]
   = [ {| rw_db := 2; rw_key := [x61]; rw_payload := [x01]; rw_ttl := 0; rw_big := false; rw_replace := true |};
-      {| rw_db := 2; rw_key := [x64]; rw_payload := [x01; x02; x03]; rw_ttl := 70; rw_big := true; rw_replace := false |} ].
+      {| rw_db := 2; rw_key := [x64]; rw_payload := [x01; x02; x03]; rw_ttl := 70; rw_big := true; rw_replace := true |} ].
 Proof. vm_compute. reflexivity. Qed.
 
 Print Assumptions C16_writes_exact.
